@@ -13,7 +13,7 @@
 (***************************************************************************)
 EXTENDS Parsers, TLC, Json, IOUtils, SequencesExt
 
-CONSTANTS MaxWordHex, MaxWordDecrypt, MaxWordPort, MaxWordOpen, MaxWordRec
+CONSTANTS MaxWordHex, MaxWordDecrypt, MaxWordPort, MaxWordOpen, MaxWordRec, MaxWordField
 
 Words(A, n) == UNION {[1..m -> A] : m \in 0..n}
 
@@ -72,6 +72,34 @@ OpenAlphabet(p) ==
 OpenCases == UNION {{[parser |-> p, word |-> w, pw |-> "na", codes |-> <<>>, exp |-> IF w = <<"FULL">> THEN "accept" ELSE "either"] :
                         w \in Words(OpenAlphabet(p), MaxWordOpen)} : p \in OpenParsers}
 
+\* ---------------------------------------------------------------- composite multiaddresses
+\* The alphabet above has one protocol per segment, so no word of three segments is a complete address.
+\* Composite segments: fullquic /ip4/A/udp/P/quic-v1/p2p/X, fullws /ip4/A/tcp/P/ws/p2p/X, fulled the quic form with
+\* an ed25519 identity peer id (12D3KooW...), relay /ip4/A/udp/P/quic-v1/p2p/R/p2p-circuit/p2p/T, bare the
+\* quic form without a peer id, p2ped /p2p/<ed25519 id>.  Every word of at most three segments that holds a
+\* composite one is enumerated (prefixes, suffixes, a second /p2p, a doubled address, junk around a valid one).
+Composite == {"fullquic", "fullws", "fulled", "relay", "bare"}
+CompAlphabet == Composite \cup {"p2p", "p2ped", "p2pbad", "circuit", "ip4", "udp", "tcp", "quic", "ws", "slash", "junk"}
+CompCases == {[parser |-> "craft_multiaddr", word |-> w, pw |-> "na", codes |-> <<>>, exp |-> "either"] :
+                 w \in {x \in Words(CompAlphabet, MaxWordOpen) : \E i \in DOMAIN x : x[i] \in Composite}}
+
+\* ---------------------------------------------------------------- invalid field values inside valid files
+\* A field word is a base file followed by at most MaxWordField mutations applied to it in order (each replaces
+\* the value of one field of the first node / first peer by an invalid or boundary one; the file stays JSON).
+\* Bases: plain = a registry with absent optional parts, rich = one with daemon, faucet, auditor, nat_status,
+\* a custom EVM network and every optional field of a node set; c3 = a cache of three fresh peers.
+RegistryField == {"pid_bad", "pid_empty", "pid_num", "cp_empty", "cp_bad", "cp_num", "rpc_port", "rpc_noport", "ip_256", "ip_short",
+                  "listen_short", "listen_bad", "num_max", "num_over", "port_over", "evm_bad", "nat_bad", "daemon_bad", "status_bad"}
+CacheField == {"addr_nop2p", "addr_short", "key_notid", "key_empty", "key_other", "addrs_empty", "cnt_neg",
+               "edge1_tmax", "edge1_tnear", "edge1_tday", "edge1_tu64", "edge1_zero"}
+FieldAlphabet(p) == IF p = "cache_load" THEN CacheField ELSE RegistryField
+FieldBase(p) == IF p = "cache_load" THEN {"c3"} ELSE {"plain", "rich"}
+FieldParsers == {"cache_load", "registry_load", "registry_from_json"}
+FieldCases == UNION {{[parser |-> p, word |-> <<b>> \o w, pw |-> "field", codes |-> <<>>,
+                       \* the untouched base is the formatter's output: it must load
+                       exp |-> IF w = <<>> THEN "accept" ELSE "either"] :
+                        b \in FieldBase(p), w \in Words(FieldAlphabet(p), MaxWordField)} : p \in FieldParsers}
+
 \* ---------------------------------------------------------------- record bytes
 \* HDR a valid 2-byte header, FULL a valid record of the parser's type, CUT1 it without its last byte,
 \* single bytes 00 91 c0 ff, and msgpack length prefixes announcing 2^32-1 elements / bytes
@@ -86,7 +114,7 @@ RecCases == {[parser |-> p, word |-> w, pw |-> "na", codes |-> <<>>,
                       IF x = "reject" /\ \E i \in DOMAIN w : w[i] = "CUT1" THEN "either" ELSE x] :
                 <<p, w>> \in RecordParsers \X Words(RecAlphabet, MaxWordRec)}
 
-Cases == HexCases \cup PortCases \cup OpenCases \cup RecCases
+Cases == HexCases \cup PortCases \cup OpenCases \cup CompCases \cup FieldCases \cup RecCases
 
 VARIABLE c
 Init == c \in Cases
@@ -103,6 +131,14 @@ LawHex == c.parser \in HexParsers =>
     /\ (c.word = <<>> /\ c.parser # "dmc_from_hex" => c.exp = "reject")
     /\ (c.parser = "dmc_from_hex" /\ x.hex => (c.exp = "accept") = Even(x.len))
     /\ (c.parser = "decrypt" /\ x.len < ENC_MIN => c.exp = "reject")
+\* the new families are not vacuous: a complete address of each composite form, each base file alone, and
+\* every single mutation of every base are cases
+ASSUME FamiliesComplete ==
+    /\ \A s \in Composite : \E x \in CompCases : x.word = <<s>>
+    /\ \A p \in FieldParsers : \A b \in FieldBase(p) :
+           /\ \E x \in FieldCases : x.parser = p /\ x.word = <<b>> /\ x.exp = "accept"
+           /\ \A f \in FieldAlphabet(p) : \E x \in FieldCases : x.parser = p /\ x.word = <<b, f>> /\ x.exp = "either"
+LawFamilies == c.pw = "field" => c.parser \in FieldParsers /\ Len(c.word) >= 1 /\ c.word[1] \in FieldBase(c.parser)
 LawPort == c.parser = "port_parse" =>
     LET sp == PortSpec(c.codes) IN
     /\ (sp.k # "reject" => sp.lo <= sp.hi /\ sp.hi <= 65535)
